@@ -394,7 +394,7 @@ def run(run):
         "derivation trees x needle x target -1..4 (+ variable num); non-trivial = tree has an open leaf reaching the needle. "
         "extract_model_value_int_var: real ISLaSolver objects over 3 fixed grammars (docstring grammar <sign>00<lead><digits>, "
         "plain/fixed-width/signed/'+'-mandatory/ambiguous/non-numeric/non-regular nonterminals) + random numeric grammars "
-        "(sign x padding x digit-body variants), integers 0, 1, 5 + sample of {9..1234, 10^20+7, negatives}; "
+        "(sign x padding x digit-body variants), integers 0, 1, 5 + sample of {9..1234, 10^9+7 (thorough 10^20+7), negatives}; "
         "non-trivial = str(z) is rejected by the grammar (Z3 query runs: padded/signed candidate or RuntimeError)")
     proof_ok = run.proof_stage()
     t_start = time.time()
